@@ -58,10 +58,11 @@ def memset (dst : Buf) (d c n : Nat) : Buf := splice dst d (List.replicate n c)
 /-- conversion of the `int` argument to the character type (`bits` wide), as an unsigned unit -/
 def toUnit (bits : Nat) (ch : Int) : Nat := (ch % ((2 ^ bits : Nat) : Int)).toNat
 
-/-- value by which units are ordered: `unsigned char` for the byte functions (7.24.4), the signed
-    value of `wchar_t` (a 32-bit `int` here) for the wide ones -/
-def key (bits : Nat) (signed : Bool) (u : Nat) : Int :=
-  if signed && decide (u ≥ 2 ^ (bits - 1)) then (u : Int) - (2 ^ bits : Nat) else (u : Int)
+/-- value by which units are ordered: the unit itself — units are held as unsigned values, and the byte
+    functions compare as `unsigned char` (7.24.4) — or, for the wide functions, the value of `wchar_t` (a signed
+    32-bit `int` here): the number congruent to the stored pattern modulo 2^bits that lies in
+    [-2^(bits-1), 2^(bits-1)), i.e. the balanced remainder -/
+def key (bits : Nat) (signed : Bool) (u : Nat) : Int := if signed then Int.bmod u (2 ^ bits) else u
 
 /-- sign of the difference of the first pair of units that differ (7.24.4) -/
 def cmp (k : Nat → Int) : List Nat → List Nat → Int
@@ -81,6 +82,26 @@ def strncmp (k : Nat → Int) (a : Buf) (i : Nat) (b : Buf) (j n : Nat) : Int :=
   cmp k (upto0 ((a.drop i).take n)) (upto0 ((b.drop j).take n))
 def memcmp (k : Nat → Int) (a : Buf) (i : Nat) (b : Buf) (j n : Nat) : Int :=
   cmp k ((a.drop i).take n) ((b.drop j).take n)
+
+/-- joint precondition of `strncmp` (weaker than `ReadableN` of each array): every pair of units the
+    function has to look at — it stops after `n` pairs, at the first pair that differs and after a
+    pair of zeros — lies inside both arrays -/
+def cmpReadableN : List Nat → List Nat → Nat → Bool
+  | _, _, 0 => true
+  | x :: xs, y :: ys, n + 1 => x != y || x == 0 || cmpReadableN xs ys n
+  | _, _, _ + 1 => false
+
+/-! ### exact allocations
+
+What C lets a function touch, cut out of the allocation as an allocation of its own (nothing before
+the pointer, nothing after the last unit): the harness passes exactly these. -/
+
+/-- the string at `(b, p)` with its terminator -/
+def exactStr (b : Buf) (p : Nat) : Buf := upto0 (b.drop p)
+/-- the part of the array at `(b, p)` an `n`-function may read: `n` units, or fewer up to and including a zero -/
+def exactN (b : Buf) (p n : Nat) : Buf := upto0 ((b.drop p).take n)
+/-- exactly `n` units from `p` (source of the `mem` functions, destination extents) -/
+def exactArr (b : Buf) (p n : Nat) : Buf := (b.drop p).take n
 
 /-- 7.24.5.2: first occurrence of `c` in the string; the terminator is part of the string -/
 def strchr (b : Buf) (p c : Nat) : Option Nat := (cstr b p ++ [0]).findIdx? (· == c)
